@@ -90,6 +90,9 @@ def render_val(v):
         return "[" + ", ".join(render_val(x) for x in v) + "]"
     if isinstance(v, dict):
         return "{" + ", ".join(json.dumps(k) + ": " + render_val(x) for k, x in v.items()) + "}"
+    if isinstance(v, (set, frozenset)):
+        assert v, "the empty set has no literal"
+        return "{" + ", ".join(render_val(x) for x in sorted(v, key=repr)) + "}"
     raise ValueError(v)
 
 
@@ -102,6 +105,8 @@ def render_expr(e):
         return "[" + render_expr(e["l1"]) + "]"
     if "l2" in e:
         return "[" + render_expr(e["l2"][0]) + ", " + render_expr(e["l2"][1]) + "]"
+    if "d1" in e:
+        return "{" + json.dumps(e["d1"][0]) + ": " + render_expr(e["d1"][1]) + "}"
     raise ValueError(e)
 
 
@@ -130,6 +135,11 @@ def render_stmt(st):
         args = [render_expr(e) for e in st["pos"]] + [f"{k}={render_expr(e)}" for k, e in st["named"]]
         s = f"{st['form']} {st['flow']}" + ("(" + ", ".join(args) + ")" if args else "")
         return (f"${st['ret']} = " if st.get("ret") else "") + s
+    if op == "mut":
+        # in-place mutation through an expression side effect: `($x.append(..))` / `$z = $x[0].append(..)`
+        tgt = "$" + st["var"] + "".join("[" + json.dumps(k) + "]" for k in st["path"])
+        call = f"{tgt}.{st['meth']}(" + ", ".join(render_expr(e) for e in st["args"]) + ")"
+        return f"${st['ret']} = {call}" if st.get("ret") else f"({call})"
     if op == "raw":
         return st["src"]
     raise ValueError(op)
@@ -392,6 +402,219 @@ def g_prog(rng, mode=None):
     return {"kind": "e2e", "prog": {"flows": flows, "main": main}, "mode": mode or "plain"}
 
 
+# --- histories with in-place mutation (kind e2e, modes hist / hist-passed).  The statement: a parameter whose argument is
+#     omitted receives its *declared default* — in every instance, whatever earlier instances did with theirs — and a
+#     caller's variable holding a returned value does not change when a sibling instance runs.  Programs: flows whose
+#     parameters / return members / locals hold containers (list, nested list, dict, dict of list, set) and are mutated in
+#     place (`($p.append(..))`, `($d.update(..))`, `($n[0].append(..))`, `$z = $p.pop()` …); main calls the same flow (and
+#     flows that declare the same default text) several times with the argument omitted / positional / named, by
+#     await / start / activate, keeps the returned values, mutates its own same-named locals between the calls.
+#     mode `hist`: nothing mutable is passed across (arguments are literals or scalar variables) — every instance owns its
+#     values, the value-semantics reference evaluator is exact.  mode `hist-passed`: container *variables* are passed /
+#     returned values are mutated: the region of the open finding `inplace-mutation-of-passed-container`.
+
+HIST_DEFAULTS = {
+    "list": [[], [], [], [1], ["x"], [1, 2]],
+    "nested": [[[1], [2]], [[]], [[], ["y"]]],
+    "dict": [{}, {}, {"k": 1}, {"j": "s", "k": 2}],
+    "dictl": [{"k": [1]}, {"k": []}],
+    "set": [{1, 2}, {"s"}, {3}],
+    "scalar": [0, 7, "s", None, True, 1.5],
+}
+HIST_TYPES = ["list", "list", "list", "nested", "dict", "dict", "dictl", "set", "scalar"]
+HIST_SCALARS = [2, 3, 7, 12, "t", "hello"]
+
+
+def g_mut(rng, var, typ, scal_vars, ret=None):
+    """a type-correct in-place mutation of `$var` (list of statements: `pop` only straight after an `append`)"""
+    def sc():
+        if scal_vars and rng.random() < 0.4:
+            return {"var": rng.choice(scal_vars)}
+        return lit(rng.choice(HIST_SCALARS))
+
+    def m(meth, args, path=(), r=None):
+        return {"op": "mut", "var": var, "path": list(path), "meth": meth, "args": args, "ret": r}
+
+    if typ == "list":
+        c = rng.choice(["append", "append", "append", "extend", "insert", "append-pop", "clear"])
+        if c == "append":
+            return [m("append", [sc()], r=ret)]
+        if c == "extend":
+            return [m("extend", [lit([rng.choice(HIST_SCALARS), rng.choice(HIST_SCALARS)])])]
+        if c == "insert":
+            return [m("insert", [lit(0), sc()])]
+        if c == "append-pop":
+            return [m("append", [sc()]), m("append", [sc()]), m("pop", [], r=ret)]
+        return [m("clear", [])]
+    if typ == "nested":
+        c = rng.choice(["in0", "in0", "top", "clear0"])
+        if c == "in0":
+            return [m("append", [sc()], path=[0])]
+        if c == "top":
+            return [m("append", [lit([rng.choice(HIST_SCALARS)])])]
+        return [m("clear", [], path=[0])]
+    if typ == "dict":
+        c = rng.choice(["update", "update", "update", "pop", "clear"])
+        if c == "update":
+            return [m("update", [{"d1": [rng.choice(["k", "z", "q"]), sc()]}])]
+        if c == "pop":
+            return [m("pop", [lit(rng.choice(["k", "z"])), lit(None)], r=ret)]
+        return [m("clear", [])]
+    if typ == "dictl":
+        c = rng.choice(["ink", "ink", "update"])
+        if c == "ink":
+            return [m("append", [sc()], path=["k"])]
+        return [m("update", [{"d1": [rng.choice(["z", "q"]), sc()]}])]
+    if typ == "set":
+        c = rng.choice(["add", "add", "add", "discard", "clear"])
+        if c == "add":
+            return [m("add", [lit(rng.choice(HIST_SCALARS))])]
+        if c == "discard":
+            return [m("discard", [lit(rng.choice([1, 2, 3, "s", 7]))])]
+        return [m("clear", [])]
+    raise ValueError(typ)
+
+
+def g_hist(rng, passed=False):
+    nfl = rng.choice([1, 2, 2, 3])
+    names = CALLEES[:nfl]
+    forms = {nm: rng.choice(["await", "await", "await", "await", "start", "start", "activate"]) for nm in names}
+    use_global = rng.random() < 0.25
+    gtyp = rng.choice(["list", "dict", "set"])
+    shared_default = {t: rng.choice(v) for t, v in HIST_DEFAULTS.items()}  # same default text in several flows/parameters
+    flows, types = [], {}
+    for nm in names:
+        params, ty = [], {}
+        if rng.random() < 0.6:
+            params.append({"name": "item", "default": None})
+            ty["item"] = "scalar"
+        for pn in rng.sample(["a", "b", "c", "p"], rng.choice([1, 1, 2, 2, 3])):
+            t = rng.choice(HIST_TYPES)
+            d = shared_default[t] if rng.random() < 0.6 else rng.choice(HIST_DEFAULTS[t])
+            params.append({"name": pn, "default": lit(d)})
+            ty[pn] = t
+        rets = []
+        if rng.random() < 0.3:
+            t = rng.choice(HIST_TYPES[:-1])
+            rets.append({"name": "r", "default": lit(shared_default[t] if rng.random() < 0.6 else rng.choice(HIST_DEFAULTS[t]))})
+            ty["r"] = t
+        flows.append({"name": nm, "params": params, "rets": rets, "body": []})
+        types[nm] = ty
+    by_name = {f["name"]: f for f in flows}
+
+    def call(target, form, scope_ty, ret=None):
+        """arguments: omitted (mostly) | fresh literal of the parameter's type | scalar variable; hist-passed: container variables"""
+        params = by_name[target]["params"]
+        ty = types[target]
+        k = rng.choice([0, 0, 0, 1, 1, 2]) if params else 0
+        k = min(k, len(params))
+
+        def arg(pn):
+            t = ty[pn]
+            if passed and rng.random() < 0.6:
+                cands = [v for v, vt in scope_ty.items() if vt == t or (t != "scalar" and vt == "ret")]
+                if cands:
+                    return {"var": rng.choice(cands)}
+            if t == "scalar":
+                sv = [v for v, vt in scope_ty.items() if vt == "scalar"]
+                if sv and rng.random() < 0.4:
+                    return {"var": rng.choice(sv)}
+                return lit(rng.choice(HIST_SCALARS))
+            return lit(rng.choice(HIST_DEFAULTS[t]))
+
+        pos = [arg(p["name"]) for p in params[:k]]
+        named = [[p["name"], arg(p["name"])] for p in params[k:] if rng.random() < 0.2]
+        rng.shuffle(named)
+        return {"op": "call", "form": form, "ret": ret, "flow": target, "pos": pos, "named": named}
+
+    for i in reversed(range(nfl)):
+        f = flows[i]
+        ty = dict(types[f["name"]])
+        body = []
+        if use_global and rng.random() < 0.5:
+            body.append({"op": "global", "name": "g"})
+            ty["g"] = gtyp
+        echo = [p["name"] for p in f["params"]] + [r["name"] for r in f["rets"]] + (["g"] if "g" in ty else [])
+        body.append({"op": "send", "name": "In" + f["name"].capitalize(), "args": [[v, {"var": v}] for v in echo]})
+        for lv in LOCALS:
+            if rng.random() < 0.5:
+                t = rng.choice(HIST_TYPES[:-1])
+                body.append({"op": "assign", "key": lv, "e": lit(rng.choice(HIST_DEFAULTS[t]))})
+                ty[lv] = t
+        if rng.random() < 0.1:
+            pn = rng.choice([p["name"] for p in f["params"]])
+            if ty[pn] != "scalar":  # re-assign a parameter with a fresh literal, then (maybe) mutate it
+                body.append({"op": "assign", "key": pn, "e": lit(rng.choice(HIST_DEFAULTS[ty[pn]]))})
+        cont = [v for v, t in ty.items() if t != "scalar"]
+        scal = [v for v, t in ty.items() if t == "scalar"]
+        for _ in range(rng.choice([1, 1, 2, 3]) if cont else 0):
+            v = rng.choice(cont)
+            ret = rng.choice([None, None, None, "z"])
+            body.extend(g_mut(rng, v, ty[v], scal, ret=ret))
+        if i + 1 < nfl and forms[f["name"]] == "await" and rng.random() < 0.4:
+            tgt = rng.choice(names[i + 1:])
+            if forms[tgt] == "await":
+                has_ret = any(s_["op"] == "ret" for s_ in by_name[tgt]["body"])
+                body.append(call(tgt, "await", ty, ret="x" if has_ret else None))
+                if has_ret:
+                    ty["x"] = "ret"
+        allv = [v for v in ty if v not in ("z",)]
+        body.append({"op": "send", "name": "Out" + f["name"].capitalize(), "args": [[v, {"var": v}] for v in allv]})
+        if forms[f["name"]] == "await":
+            if rng.random() < 0.9:
+                r = rng.random()
+                rcont = [v for v in cont if passed or v != "g"]  # a returned global stays shared with everybody (passed across)
+                if rcont and r < 0.65:
+                    e = {"var": rng.choice(rcont)}
+                elif r < 0.8 and scal:
+                    e = {"l2": [{"var": rng.choice(scal)}, lit(rng.choice(HIST_SCALARS))]}
+                else:
+                    e = lit(rng.choice(rng.choice(list(HIST_DEFAULTS.values()))))
+                body.append({"op": "ret", "e": e})
+        else:
+            body.append({"op": "block"})
+        f["body"] = body
+
+    main, ty = [], {}
+    if use_global:
+        main.append({"op": "global", "name": "g"})
+        main.append({"op": "assign", "key": "g", "e": lit(rng.choice(HIST_DEFAULTS[gtyp]))})
+        ty["g"] = gtyp
+    for lv in LOCALS + ["a"]:
+        if rng.random() < 0.5:
+            t = rng.choice(HIST_TYPES)
+            main.append({"op": "assign", "key": lv, "e": lit(rng.choice(HIST_DEFAULTS[t]))})
+            ty[lv] = t
+    ncalls = rng.choice([2, 3, 3, 4, 5, 6])
+    activated, nret = set(), 0
+    for ci in range(ncalls):
+        tgt = rng.choice(names)
+        form = forms[tgt]
+        if form == "activate":
+            if tgt in activated:
+                continue
+            activated.add(tgt)
+        has_ret = any(s_["op"] == "ret" for s_ in by_name[tgt]["body"])
+        if form == "await" and has_ret and rng.random() < 0.9:
+            nret += 1
+            rv = "x%d" % nret
+            main.append(call(tgt, form, ty, ret=rv))
+            ty[rv] = "ret"
+        else:
+            main.append(call(tgt, form, ty))
+        mine = [v for v, t in ty.items() if t not in ("scalar", "ret") and (v != "g" or True)]
+        if mine and rng.random() < 0.35:
+            v = rng.choice(mine)
+            main.extend(g_mut(rng, v, ty[v], [x for x, t in ty.items() if t == "scalar"]))
+        if passed and nret and rng.random() < 0.3:  # mutate a returned value (shared with the finished callee as the code is)
+            main.append({"op": "mut", "var": "x%d" % rng.randrange(1, nret + 1), "path": [], "meth": "clear", "args": [], "ret": None})
+        if rng.random() < 0.6:
+            main.append({"op": "send", "name": "Mid", "args": [[v, {"var": v}] for v in ty]})
+    main.append({"op": "send", "name": "Fin", "args": [[v, {"var": v}] for v in ty]})
+    main.append({"op": "block"})
+    return {"kind": "e2e", "prog": {"flows": flows, "main": main}, "mode": "hist-passed" if passed else "hist"}
+
+
 # --- probes (oracle only): event-driven privacy, in-place aliasing
 
 def g_probe(rng):
@@ -539,6 +762,7 @@ def gen_cases(rng, tier):
     cases += [g_fn(rng) for _ in range(n_fn)]
     modes = [None] * 12 + ["clash", "clash", "surplus", "unknown-named", "dup-named", "reserved"]
     cases += [g_prog(rng, rng.choice(modes)) for _ in range(n_e2e)]
+    cases += [g_hist(rng, passed=rng.random() < 0.15) for _ in range(n_e2e)]
     cases += [g_probe(rng) for _ in range(n_probe)]
     cases += [g_when_probe(rng) for _ in range(2 * n_probe)]
     return cases
@@ -587,7 +811,7 @@ def _items(d, main_uid=None):
         if main_uid is not None and v == main_uid:
             v = "@main"
         try:
-            out.append([k, vj.enc(v)])
+            out.append([k, canon_j(vj.enc(v))])
         except ValueError:
             out.append([k, {"s": "<" + type(v).__name__ + ">"}])
     return out
@@ -631,12 +855,37 @@ def _clean_event(e):
 
 def _enc_safe(v):
     try:
-        return vj.enc(v)
+        return canon_j(vj.enc(v))
     except ValueError:
         return {"s": "<" + type(v).__name__ + ">"}
 
 
 CASE_TIMEOUT_S = 20
+
+
+class _SnapList(list):
+    """`state.outgoing_events`: an emitted event is observed with the argument values it has when it is emitted (the
+    event dict refers to the very objects the flow's variables hold; a later in-place mutation must not rewrite what
+    was observed)"""
+
+    def append(self, e):
+        try:
+            e = copy.deepcopy(e)
+        except Exception:  # noqa — an argument that cannot be copied is kept as it is
+            pass
+        super().append(e)
+
+
+def canon_j(j):
+    """encoded value with sets in a canonical element order (iteration order of a hash set is not part of any contract)"""
+    if isinstance(j, dict):
+        if "S" in j:
+            return {"S": sorted((canon_j(x) for x in j["S"]), key=lambda x: json.dumps(x, sort_keys=True))}
+        if "l" in j:
+            return {"l": [canon_j(x) for x in j["l"]]}
+        if "d" in j:
+            return {"d": [[k, canon_j(v)] for k, v in j["d"]]}
+    return j
 
 
 class _Timeout(BaseException):
@@ -655,6 +904,7 @@ def run_prog(src, events):
         obs["skip"] = "parse:" + type(e).__name__ + ":" + str(e)[:80]
         return obs
     out = []
+    st.outgoing_events = _SnapList()
 
     def on_alarm(signum, frame):
         raise _Timeout()
@@ -684,13 +934,41 @@ def run_prog(src, events):
     return obs
 
 
+def _isolated(src, events):
+    """run one program in a forked child of this worker.  The worker itself never executes a program, so every program
+    starts from the process state left by the imports alone: module-level state of the code under test (caches,
+    registries — e.g. a memoised default value polluted by an earlier program) cannot carry over from one case to the
+    next, and a replay file reproduces in a fresh process exactly what the search saw."""
+    import os
+
+    r, w = os.pipe()
+    pid = os.fork()
+    if pid == 0:
+        code = 1
+        try:
+            os.close(r)
+            data = json.dumps(run_prog(src, events)).encode()
+            with os.fdopen(w, "wb") as fh:
+                fh.write(data)
+            code = 0
+        finally:
+            os._exit(code)
+    os.close(w)
+    with os.fdopen(r, "rb") as fh:
+        data = fh.read()
+    os.waitpid(pid, 0)
+    if not data:
+        return {"src": src, "exc": "other:child-died", "out": [], "insts": [], "globals": []}
+    return json.loads(data)
+
+
 def run_impl(case):
     if case["kind"] == "fn":
         return run_fn(case)
     if case["kind"] == "e2e":
-        return run_prog(render_prog(case["prog"]), [])
+        return _isolated(render_prog(case["prog"]), [])
     if case["kind"] == "probe":
-        return run_prog(case["src"], case["events"])
+        return _isolated(case["src"], case["events"])
     raise ValueError(case["kind"])
 
 
@@ -705,6 +983,8 @@ def model_requests(case, obs):
         return []
     if case["kind"] == "fn":
         return [{"m": "C08.bind", "params": case["params"], "rets": case["rets"], "ev": case["ev"], "main": False, "asis": not REPAIRED}]
+    if case["kind"] == "e2e" and case.get("mode", "").startswith("hist"):
+        return []
     if case["kind"] == "e2e":
         p = case["prog"]
         return [{"m": "C08.exec", "flows": p["flows"], "main": p["main"], "fuel": _fuel(p)}]
@@ -770,15 +1050,24 @@ class _NoExpectation(Exception):
     """the statement does not say what happens here (surplus / clash / unknown name / missing return …)"""
 
 
-def spec_eval(e, env, genv, gdecl):
+def spec_eval(e, env, genv, gdecl, share=False):
+    """value of an expression.  Default (`share=False`) is VALUE semantics: reading a variable yields a private copy, so
+    every instance owns what its variables hold (the statement: parameters receive *values*, locals are private).
+    `share=True` is the reference semantics of the code as it is (used only to classify a failure as the open finding
+    `inplace-mutation-of-passed-container`): lists/sets are passed as the object, a dict variable as a shallow copy."""
     if "lit" in e:
         return vj.dec(e["lit"])
     if "var" in e:
         x = e["var"]
-        return genv.get(x) if x in gdecl else env.get(x)
+        v = genv.get(x) if x in gdecl else env.get(x)
+        if share:
+            return dict(v) if isinstance(v, dict) else v
+        return copy.deepcopy(v)
     if "l1" in e:
-        return [spec_eval(e["l1"], env, genv, gdecl)]
-    return [spec_eval(e["l2"][0], env, genv, gdecl), spec_eval(e["l2"][1], env, genv, gdecl)]
+        return [spec_eval(e["l1"], env, genv, gdecl, share)]
+    if "d1" in e:
+        return {e["d1"][0]: spec_eval(e["d1"][1], env, genv, gdecl, share)}
+    return [spec_eval(e["l2"][0], env, genv, gdecl, share), spec_eval(e["l2"][1], env, genv, gdecl, share)]
 
 
 def _vars(exprs):
@@ -788,6 +1077,8 @@ def _vars(exprs):
             out.add(e["var"])
         elif "l1" in e:
             out |= _vars([e["l1"]])
+        elif "d1" in e:
+            out |= _vars([e["d1"][1]])
         elif "l2" in e:
             out |= _vars(e["l2"])
     return out
@@ -813,10 +1104,29 @@ def spec_bind(params, pos_vals, named_vals):
     return env
 
 
-def spec_run(prog):
-    """expected emitted events, final variables per instance (creation order), globals"""
+def _is_container(v):
+    return isinstance(v, (list, dict, set))
+
+
+def _still_matches(ref, now):
+    """the documented partial-match rule for event arguments: list = prefix, dict = sub-dict, set = subset"""
+    if isinstance(ref, list):
+        return isinstance(now, list) and len(ref) <= len(now) and all(_still_matches(r, n) for r, n in zip(ref, now))
+    if isinstance(ref, dict):
+        return isinstance(now, dict) and all(k in now and _still_matches(v, now[k]) for k, v in ref.items())
+    if isinstance(ref, (set, frozenset)):
+        return isinstance(now, (set, frozenset)) and ref <= now
+    return type(ref) is type(now) and ref == now
+
+
+def spec_run(prog, share=False):
+    """expected emitted events (values as they are when the event is sent), final variables per instance (creation
+    order), globals"""
     flows = {f["name"]: f for f in prog["flows"]}
     out, insts, genv = [], [], {}
+
+    def ev(e, env, gdecl):
+        return spec_eval(e, env, genv, gdecl, share)
 
     def run(body, env, gdecl, fname):
         rec = [fname, env, gdecl]
@@ -827,31 +1137,59 @@ def spec_run(prog):
         for st in body:
             op = st["op"]
             if op == "assign":
-                v = spec_eval(st["e"], env, genv, gdecl)
+                v = ev(st["e"], env, gdecl)
                 if st["key"] in gdecl:
                     genv[st["key"]] = v
                 else:
                     env[st["key"]] = v
+            elif op == "mut":
+                # in-place mutation of the value the instance's own variable holds (Python's container methods)
+                x = st["var"]
+                obj = genv.get(x) if x in gdecl else env.get(x)
+                try:
+                    for k in st["path"]:
+                        obj = obj[k]
+                    res = getattr(obj, st["meth"])(*[ev(a, env, gdecl) for a in st["args"]])
+                except Exception as e:  # noqa — type error / missing key: the statement says nothing
+                    raise _NoExpectation("mutation raises " + type(e).__name__)
+                res = res if share else copy.deepcopy(res)
+                key = st.get("ret") or "_"
+                if key in gdecl:
+                    genv[key] = res
+                else:
+                    env[key] = res
             elif op == "global":
                 gdecl.add(st["name"])
                 genv.setdefault(st["name"], None)
             elif op == "ret":
-                return ("ret", spec_eval(st["e"], env, genv, gdecl))
+                return ("ret", ev(st["e"], env, gdecl))
             elif op == "send":
-                out.append([st["name"], {k: spec_eval(e, env, genv, gdecl) for k, e in st["args"]}])
+                out.append([st["name"], {k: copy.deepcopy(ev(e, env, gdecl)) for k, e in st["args"]}])
             elif op == "block":
                 return ("block", None)
             elif op == "call":
                 f = flows[st["flow"]]
-                pv = [spec_eval(e, env, genv, gdecl) for e in st["pos"]]
+                pv = [ev(e, env, gdecl) for e in st["pos"]]
                 nv = {}
                 for k, e in st["named"]:
                     if k in nv:
                         raise _NoExpectation("duplicate named argument")
-                    nv[k] = spec_eval(e, env, genv, gdecl)
+                    nv[k] = ev(e, env, gdecl)
                 cenv = spec_bind(f["params"], pv, nv)
+                for r in f.get("rets", []):  # return members: declared default (or None), a variable of the callee
+                    if r["name"] not in cenv:
+                        cenv[r["name"]] = spec_eval(r["default"], {}, {}, set()) if r.get("default") is not None else None
+                # the objects bound to SUPPLIED parameters, and what the caller supplied
+                sup = [(cenv[p["name"]], copy.deepcopy(cenv[p["name"]])) for i, p in enumerate(f["params"])
+                       if (i < len(pv) or p["name"] in nv) and _is_container(cenv[p["name"]])]
                 gused = {x: vj.enc(genv.get(x)) for x in _vars(st["pos"] + [e for _, e in st["named"]]) if x in gdecl}
                 res = run(f["body"], cenv, set(), f["name"])
+                if not share and any(not _still_matches(orig, now) for now, orig in sup):
+                    # the caller's FlowStarted pattern (its call arguments) is matched after the callee's synchronous run
+                    # against the event that refers to the callee's objects: a supplied container the callee mutated so
+                    # that the supplied value no longer partially matches it leaves the caller waiting (hand-shake quirk;
+                    # progress is not part of the statement, the model mirrors it)
+                    raise _NoExpectation("supplied container argument mutated before the hand-shake")
                 if any(vj.enc(genv.get(x)) != v for x, v in gused.items()):  # type-sensitive: True -> 1 is a change
                     # the callee re-assigned a global that the call passes as an argument: the caller's FlowStarted
                     # pattern is re-evaluated with the new value and the caller never resumes — progress is not part of
@@ -875,6 +1213,41 @@ def spec_run(prog):
 
 def _has_reserved(params):
     return any(p["name"] in RESERVED or p["name"] == "context" for p in params)
+
+
+def _cenc(v):
+    return canon_j(vj.enc(v))
+
+
+def oracle_e2e(case, obs, share=False):
+    try:
+        eout, einsts, egl = spec_run(case["prog"], share)
+    except _NoExpectation:
+        return None
+    if "exc" in obs:
+        return f"run_to_completion raised {obs['exc']} on a program inside the statement"
+    got = obs["out"]
+    exp = [[n, {k: _cenc(v) for k, v in a.items()}] for n, a in eout]
+    if got != exp:
+        for i, (g, e) in enumerate(itertools.zip_longest(got, exp)):
+            if g != e:
+                return f"emitted event #{i}: expected {e} got {g}"
+    # privacy: every instance ends with exactly the variables it bound/assigned itself
+    gi = obs["insts"]
+    if len(gi) != len(einsts):
+        return f"{len(gi)} flow instances, expected {len(einsts)}"
+    for idx, ((fid, ctx), (efid, eenv, egd)) in enumerate(zip(gi, einsts)):
+        if fid != efid:
+            return f"instance #{idx} is {fid}, expected {efid}"
+        c = {k: v for k, v in ctx if not k.startswith("_")}
+        e = {k: _cenc(v) for k, v in eenv.items() if not k.startswith("_")}
+        if c != e:
+            return f"instance #{idx} ({fid}) ends with variables {c}, expected {e}"
+    gg = {k: v for k, v in obs["globals"]}
+    eg = {k: _cenc(v) for k, v in egl.items()}
+    if gg != eg:
+        return f"global context {gg}, expected {eg}"
+    return None
 
 
 def oracle(case, obs):
@@ -905,34 +1278,7 @@ def oracle(case, obs):
                 return f"parameter ${nm}: expected {vj.enc(exp[nm])} got {got[nm]}"
         return None
     if case["kind"] == "e2e":
-        try:
-            eout, einsts, egl = spec_run(case["prog"])
-        except _NoExpectation:
-            return None
-        if "exc" in obs:
-            return f"run_to_completion raised {obs['exc']} on a program inside the statement"
-        got = obs["out"]
-        exp = [[n, {k: vj.enc(v) for k, v in a.items()}] for n, a in eout]
-        if got != exp:
-            for i, (g, e) in enumerate(itertools.zip_longest(got, exp)):
-                if g != e:
-                    return f"emitted event #{i}: expected {e} got {g}"
-        # privacy: every instance ends with exactly the variables it bound/assigned itself
-        gi = obs["insts"]
-        if len(gi) != len(einsts):
-            return f"{len(gi)} flow instances, expected {len(einsts)}"
-        for idx, ((fid, ctx), (efid, eenv, egd)) in enumerate(zip(gi, einsts)):
-            if fid != efid:
-                return f"instance #{idx} is {fid}, expected {efid}"
-            c = {k: v for k, v in ctx if not k.startswith("_")}
-            e = {k: vj.enc(v) for k, v in eenv.items()}
-            if c != e:
-                return f"instance #{idx} ({fid}) ends with variables {c}, expected {e}"
-        gg = {k: v for k, v in obs["globals"]}
-        eg = {k: vj.enc(v) for k, v in egl.items()}
-        if gg != eg:
-            return f"global context {gg}, expected {eg}"
-        return None
+        return oracle_e2e(case, obs)
     # probe
     if "exc" in obs:
         return f"run_to_completion raised {obs['exc']}"
@@ -959,7 +1305,26 @@ def signature(case, obs, msg):
         return "reserved-parameter-name"
     if case["kind"] == "probe" and case["tmpl"].startswith("inplace-"):
         return "inplace-mutation-of-passed-container"
+    if case["kind"] == "e2e" and case.get("mode") == "hist-passed" and _passes_container(case["prog"]):
+        # a container *variable* is passed (or a returned value is mutated by the caller) and what was observed is exactly
+        # what sharing the passed object — and nothing else — explains: defaults fresh, everything not passed private
+        if oracle_e2e(case, obs, share=True) is None:
+            return "inplace-mutation-of-passed-container"
     return None
+
+
+def _passes_container(prog):
+    """is a bare variable passed as a call argument, or a captured return value mutated in place, somewhere?  (an
+    OMITTED argument is not a passed container: a polluted default never gets the finding's signature)"""
+    bodies = [prog["main"]] + [f["body"] for f in prog["flows"]]
+    for b in bodies:
+        rets = {s_["ret"] for s_ in b if s_["op"] == "call" and s_.get("ret")}
+        for s_ in b:
+            if s_["op"] == "call" and any("var" in e for e in s_["pos"] + [e for _, e in s_["named"]]):
+                return True
+            if s_["op"] == "mut" and s_["var"] in rets:
+                return True
+    return False
 
 
 def nontrivial(case, obs):
